@@ -33,6 +33,7 @@ struct vs_config {
     size_t max_steps;           /* livelock guard */
     int trace;                  /* 1: print one line per step to the trace stream */
     int pct_depth;              /* >0: PCT priorities with this many change points (over max_steps/16 steps) */
+    int events;                 /* 1: print "T <tid> create <new>" / "T <tid> exit" / "T <tid> joined <target>" lines (stdout) */
 };
 
 #define VS_DEFAULT_MASK ((1u<<VS_LOCK)|(1u<<VS_PREWAIT)|(1u<<VS_WAIT)|(1u<<VS_EVWAIT)|(1u<<VS_CREATE)|(1u<<VS_JOIN)|(1u<<VS_SLEEP)|(1u<<VS_DEV)|(1u<<VS_EXIT))
